@@ -206,6 +206,10 @@ class Gen:
             if r.random() < 0.10:
                 out.append('# comment in column 0')
                 self.col0 = True
+            # a completely empty physical line inside brackets inside the block: the statement is not over, the block is not over
+            if r.random() < 0.07:
+                out += r.choice([[ind + 'u = [n,', '', ind + '     2]'], [ind + 'print(n,', '', ind + '      s)'], [ind + 'u = {"a": n,', '', '"b": 2}'], [ind + 'u = (n +', '', '', ind + ' 1)']])
+                self.col0 = True
             if r.random() < 0.08:
                 out += r.choice([[ind + 'u = [n,', '2]'], [ind + 'u = (n +', '1)'], [ind + 'u = """a', 'b"""'], [ind + "u = '''a", '', "b'''"], [ind + 'print(n,', '# inner', 's)']])
                 self.col0 = True
